@@ -581,6 +581,7 @@ type dirState struct {
 	rDeadline     time.Time
 	rLastLen      int
 	wDeadline     time.Time
+	closeViaSocket bool // the close notification of this direction's writer went through the socket (queue full)
 	usedShm       bool // some message of this direction travelled through the shared-memory queue
 	usedFallback  bool // ... through the socket
 }
@@ -1239,7 +1240,13 @@ func (w *sessWorld) closeEnd(ss *sessStream, end int, role int) {
 	}
 	d.closeSegMark = mark
 	simrt.Event("CLOSE s%d end%d role=%d", ss.idx, end, role)
+	qfBefore := es.stream.session.stats.queueFullErrorCount
 	err := es.stream.Close()
+	if es.stream.session.stats.queueFullErrorCount != qfBefore {
+		// the queue was full: the close notification went through the socket although the data went through the queue
+		d.closeViaSocket = true
+		w.probe("close_via_socket")
+	}
 	simrt.Event("CLOSE s%d end%d returned %v", ss.idx, end, err)
 	es.closeReturned = true
 	es.closeRetAt = simrt.Now()
@@ -1270,7 +1277,7 @@ func (w *sessWorld) beforeCall(es *endState) {
 }
 
 func (w *sessWorld) tagThread(ss *sessStream, dir int) {
-	if ss.dirs[dir].usedFallback && (ss.dirs[dir].usedShm || ss.dirs[dir].closeInvoked) {
+	if (ss.dirs[dir].usedFallback && (ss.dirs[dir].usedShm || ss.dirs[dir].closeInvoked)) || (ss.dirs[dir].closeViaSocket && ss.dirs[dir].usedShm) {
 		simrt.SetTag("transport_switch", "yes")
 	}
 }
@@ -1665,7 +1672,7 @@ func (w *sessWorld) ctxTags(ss *sessStream, dir int) map[string]string {
 	wend, rend := endsOf(dir)
 	we, re := ss.ends[wend], ss.ends[rend]
 	d := ss.dirs[dir]
-	if d.usedFallback && (d.usedShm || d.closeInvoked) {
+	if (d.usedFallback && (d.usedShm || d.closeInvoked)) || (d.closeViaSocket && d.usedShm) {
 		tags["transport_switch"] = "yes" // messages (or the close) of this direction travelled through both the queue and the socket
 	}
 	if re.closeInvoked {
